@@ -81,7 +81,8 @@ def run(tier, replay=None):
     # zone pass: the operations that carry dates / times, answered with replies whose calendar fields sit on the offset-change
     # days of a zone with DST (civil times that exist there), in a child process running in that zone
     zs = ["America/New_York", "Europe/London", "America/Santiago", "Australia/Lord_Howe", "Asia/Tehran", "Africa/Casablanca"]
-    pick = zs if tier == "thorough" else [zs[vflib.seed() % len(zs)], zs[(vflib.seed() + 3) % len(zs)]]
+    gaps = ["America/Santiago", "America/Havana", "America/Asuncion", "America/Sao_Paulo", "Asia/Beirut"]     # zones with days whose midnight is skipped
+    pick = (zs + gaps) if tier == "thorough" else [zs[vflib.seed() % len(zs)], gaps[vflib.seed() % len(gaps)]]
     for z in pick:
         zsumm = common.harness_traces("c02", tier, shards=4, env={"TZ": z}, extra_args=["-x", "layouts=%s;zonepass=1" % layouts], timeout=3600, name="c02-zone-" + z.replace("/", "_"))
         common.validate(v, "Trace_Api", "Trace_Api.cfg", zsumm, key, prop=PROP)
